@@ -188,9 +188,13 @@ package digest
 //@   ensures forall j :: 0 <= j && j < len(result) ==> result[j].value == chainAt(d.value, j)
 
 // ---- as seen by the completeness checker (C13): trusted helpers.
+// ndpFails: number of proto digests that did not parse so far (lets callers
+// account for every entry of a batch: uploaded, or rejected as malformed).
+//@ ghost ndpFails int
 //@ func (Function).NewDigestFromProto
 //@   trusted
-//@   modifies nothing
+//@   modifies ndpFails
+//@   ensures (result1 != nil ==> ndpFails == old(ndpFails) + 1) && (result1 == nil ==> ndpFails == old(ndpFails))
 // sbAdds(m): number of Add calls on the set builder whose map is m.
 //@ ghost sbAdds(ref) int
 //@ func NewSetBuilder
